@@ -150,6 +150,12 @@ class C14(core.Check):
         lang = {'en': 'en-GB', 'de': 'de-DE', 'ru': 'ru-RU'}[case['lang']]
         plan = {'mode': 'words', 'regex': WORD, 'every': case['every']}
         words = {w: st for w, st, path in d.words}
+        # a word with a separate combining accent is cut by the proofreader's word pattern: the piece may equal
+        # another (shorter) generated word -> such pieces are not judged
+        for w in list(words):
+            m = re.match(WORD, w)
+            if m and m.group(0) != w:
+                words.pop(m.group(0), None)
         base = ['--language', lang]
         own = case['s'] % 4 == 1
         if own:
